@@ -1746,7 +1746,8 @@ def _m_format(ev, a, t, d):
 
 
 def _m_disp(ev, a, t, d):
-    return ("disp", a[0])
+    # a char displays as the one-character string
+    return ("disp", map_leaves(a[0], lambda x: C(chr(x[1]), "&str") if (is_c(x) and x[2] == "char" and isinstance(x[1], int)) else x))
 
 
 def _m_dbg(ev, a, t, d):
